@@ -14,6 +14,7 @@ fn dispatch(id: &str, ctx: &Ctx) -> Option<Report> {
         "C01" => mon::c01::run(ctx),
         "C04" => mon::c04::run(ctx),
         "C05" => mon::c05::run(ctx),
+        "C19" => mon::c19::run(ctx),
         _ => return None,
     })
 }
